@@ -139,6 +139,21 @@ def stepOther (s : State) (name : String) : Outcome :=
         adv (st.take (n - 1 - k) ++ st.drop (n - k) ++ [v])
       else .reject "underflow"
     | none => .unsupported name
+  | ["bury", k] =>
+    match k.toNat? with
+    | some k =>
+      if k == 0 then .reject "bury0" else
+      if k < n then adv ((st.dropLast).set (n - 1 - k) st[n - 1]!) else .reject "underflow"
+    | none => .unsupported name
+  | ["popn", k] =>
+    match k.toNat? with
+    | some k => if k ≤ n then adv (st.take (n - k)) else .reject "underflow"
+    | none => .unsupported name
+  | ["dupn", k] =>
+    match k.toNat?, st.getLast? with
+    | some k, some v => adv (st ++ List.replicate k v)
+    | some _, none => .reject "underflow"
+    | none, _ => .unsupported name
   | ["load", k] =>
     match k.toNat? with
     | some k => adv (st ++ [scratchGet s k])
